@@ -67,13 +67,13 @@ Example c4_ex_xref_ws_self_loops :
   c4xo_res (c4_read_xref [(100%Z, mkC4xsec C4xTable false 0 96 3 1)] 100) = C4xNotFound.
 Proof. vm_compute. repeat split; reflexivity. Qed.
 
-(* qpdf JSON import: "value": "4 0 R" is refused whether or not 4 0 is (already) a stream, and counted; accepted only on the
-   stream itself (which is then gone, C14-F4); a logic_error thrown by a callee would pass importJSON untranslated *)
+(* qpdf JSON import: "value": "4 0 R" is refused whether or not 4 0 is (already) a stream, and counted - also on the stream
+   itself (since the repair of C14-F4); a logic_error thrown by a callee would pass importJSON untranslated *)
 Example c4_ex_json_value_reference :
   c4_import_json [] false [C4jObj 4 0 [C4jStream true true true false false]; C4jObj 5 0 [C4jValRef 4 0]] = (C4eRuntime, 1, [(4, 0)]) /\
   c4_import_json [] false [C4jObj 5 0 [C4jValRef 4 0]; C4jObj 4 0 [C4jStream true true true false false]] = (C4eRuntime, 1, [(4, 0)]) /\
   c4_import_json [(4, 0)] false [C4jObj 5 0 [C4jValRef 4 0]] = (C4eRuntime, 1, [(4, 0)]) /\
-  c4_import_json [(4, 0)] false [C4jObj 4 0 [C4jValRef 4 0]] = (C4eNone, 0, []) /\
+  c4_import_json [(4, 0)] false [C4jObj 4 0 [C4jValRef 4 0]] = (C4eRuntime, 1, [(4, 0)]) /\
   c4_import_json [] false [C4jObj 4 0 [C4jStream true true true false false]; C4jObj 5 0 [C4jValDirect true]] = (C4eNone, 0, [(4, 0)]) /\
   c4_import_json [] false [C4jThrows C4eQPDFExc; C4jObj 5 0 [C4jValRef 4 0]] = (C4eRuntime, 0, []) /\
   c4_import_json [] false [C4jThrows C4eLogic] = (C4eLogic, 0, []).
